@@ -70,7 +70,8 @@ def image_mask_from_geom(size, bbox, polygons):
         for ring in p.interiors:
             draw.polygon([transf(coord) for coord in ring.coords], fill=255)
 
-    for p in polygons:
+    # polygons inside the hole of another polygon have to be drawn after it
+    for p in sorted(polygons, key=lambda p: -p.envelope.area):
         # little bit smaller polygon does not include touched pixels outside coverage
         buffered = p.buffer(buffer, resolution=1, join_style=2)
 
